@@ -3,6 +3,8 @@ package props
 import (
 	"bytes"
 	"fmt"
+	"os"
+	"path/filepath"
 	"strings"
 
 	"verifharness/ref"
@@ -22,9 +24,55 @@ import (
 // value. Matcher: -0, every printed piece equals what the pinned removeLastEOL leaves of value+"\n" (a final
 // "\r\n" is cut, else one final "\n"), and for at least one value (ending in "\r") that is not the value.
 
+// flagInPlace: -i "update the file in place of first file given": exit 0 means the file now holds what the same command
+// prints without -i (with and without --front-matter, eval and eval-all); a failing command leaves it as it was.
+func (c *c19ctx) flagInPlace() {
+	c.group = "F-inplace"
+	v := c.intv().JSON()
+	fm := c.r.IntN(2) == 0
+	name, text := "doc.yaml", "a: 1\nb: [x, y]\n"
+	var flags []string
+	if fm {
+		name, text = "post.md", "---\ntitle: t\na: 1\n---\nbody line one\nbody line two\n"
+		flags = []string{"--front-matter=" + []string{"process", "process", "extract"}[c.r.IntN(3)]}
+	}
+	mode := []string{"eval", "ea"}[c.r.IntN(2)]
+	expr := []string{".a = " + v, ".added = " + v, "del(.a)", ".a |= . + " + v}[c.r.IntN(4)]
+	c.tag("flag:-i", "mode:"+mode)
+	if fm {
+		c.tag(flags[0])
+	}
+	c.write(name, text)
+	ref0 := c.yq(nil, append(append([]string{mode}, flags...), expr, name)...)
+	if ref0.TimedOut {
+		return
+	}
+	x := c.yq(nil, append(append([]string{mode, "-i"}, flags...), expr, name)...)
+	if x.TimedOut {
+		return
+	}
+	after, rerr := os.ReadFile(filepath.Join(c.dir, name))
+	what := fmt.Sprintf("yq %s -i %v '%s' %s", mode, flags, expr, name)
+	switch {
+	case rerr != nil:
+		c.violate("%s: the file is gone afterwards (%v)", what, rerr)
+	case ref0.Exit == 0 && x.Exit != 0:
+		c.violate("%s fails (exit %d: %s) where the same command without -i succeeds", what, x.Exit, clipStr(string(x.Stderr), 200))
+	case x.Exit == 0 && string(after) != string(ref0.Stdout):
+		c.violate("%s exits 0 but the file does not hold what the command prints without -i\n file:   %q\n stdout: %q", what, clipStr(string(after), 300), clipStr(string(ref0.Stdout), 300))
+	case x.Exit != 0 && string(after) != text:
+		c.violate("%s fails (exit %d) and the file is not what it was: %q", what, x.Exit, clipStr(string(after), 300))
+	default:
+		c.res.Nontrivial = true
+		c.say(what + " -> the file holds the output of the command without -i")
+	}
+}
+
 func (c *c19ctx) familyF() {
 	sub := c.idx / len(c19Families)
-	switch sub % 4 {
+	switch sub % 5 {
+	case 4:
+		c.flagInPlace()
 	case 0:
 		c.flagN()
 	case 1:
